@@ -14,7 +14,7 @@ namespace HailVerif.C14
 open HailVerif.Access HailVerif.Generated.BatchRoutes
 
 /-- what the guards establish about a caller that reaches the handler body (for `owner`: an authenticated active user; the
-ownership itself is the SQL filter's job, see `owner_filter_first` and `owner_only`) -/
+ownership itself is the SQL filter's job, see `owner_filter_first` and `owner_only_partial`) -/
 def establishedByGuards (cls : Class) (c : Caller) : Bool :=
   match cls with
   | .pub => true
@@ -125,34 +125,57 @@ theorem owner_filter_first : ∀ r ∈ routes, required r.method r.segs = .owner
   have := List.all_eq_true.1 h r hr
   simpa [hreq] using this
 
-/-- OWNER ONLY, full strength: a non-owner's request to any of the mutators gets an error and nothing changes — whatever
-token it carries. -/
-theorem owner_only (m : Mutator) (q : MutReq) (hno : q.isOwner = false) : mutate m q = { ok := false, changed := false } := by
-  cases m <;> simp [mutate, createBatchUpdate, hno]
+/-- `_user_can_access` (the membership test behind `billing_project_users_only`) compares the case-sensitive column. -/
+theorem member_filter_case_sensitive : userCanAccessColumn = "user_cs" := by decide
+
+/-- OWNER ONLY, FULL STATEMENT (false today, see `owner_only_fails`): a non-owner's request to any of the mutators gets an
+error and nothing changes. -/
+def OwnerOnly : Prop := ∀ (m : Mutator) (q : MutReq), q.isOwner = false → mutate m q = { ok := false, changed := false }
+
+/-- Negation on the witness: an account whose name differs from the owner's only by case (`Alice` vs `alice`; auth's
+`users.username` is unique under a case-SENSITIVE collation, so both can exist) passes `batches.user = %s`. -/
+theorem owner_only_fails : ¬ OwnerOnly := by
+  intro h
+  have := h .createJobs { isOwner := false, tokenKnown := false, emptyPayload := false, namesake := true } rfl
+  simp [mutate, MutReq.passesOwnerFilter] at this
+
+/-- PARTIAL (explicit hypothesis: the caller is not a namesake of the owner): refusal without change, whatever token the
+request carries. -/
+theorem owner_only_partial (m : Mutator) (q : MutReq) (hno : q.isOwner = false) (hns : q.namesake = false) :
+    mutate m q = { ok := false, changed := false } := by
+  cases m <;> simp [mutate, createBatchUpdate, MutReq.passesOwnerFilter, hno, hns]
+
+/-- FULL STATEMENT about the extracted SQL (false today): every comparison with the user name uses a case-sensitive column. -/
+def AllUserFiltersCaseSensitive : Prop := ∀ f ∈ userFilters, f.2.2 = true
+
+theorem all_user_filters_case_sensitive_fails : ¬ AllUserFiltersCaseSensitive := by
+  intro h
+  have := h ("front_end.py:commit_update", "batches.user", false) (by decide +kernel)
+  simp at this
+
+/-- the batch listings: without a namesake, a batch is listed only for members / the owner -/
+theorem listing_partial (m : Bool) : listed m false = m := by simp [listed]
+example : listed false true = true := by decide
 
 /-! ### the repaired defect (`_create_batch_update` before commit 4c50f4344) -/
 
-/-- the full statement for the old control flow -/
-def OwnerOnlyOld : Prop := ∀ (m : Mutator) (q : MutReq), q.isOwner = false → mutateOld m q = { ok := false, changed := false }
+/-- the full statement for the old control flow, even without namesakes -/
+def OwnerOnlyOld : Prop :=
+  ∀ (m : Mutator) (q : MutReq), q.isOwner = false → q.namesake = false → mutateOld m q = { ok := false, changed := false }
 
 /-- update-fast by a non-owner who sent an existing token and empty bunch/job_groups committed the update. -/
 theorem owner_only_old_fails : ¬ OwnerOnlyOld := by
   intro h
-  have := h .updateFast { isOwner := false, tokenKnown := true, emptyPayload := true } rfl
+  have := h .updateFast { isOwner := false, tokenKnown := true, emptyPayload := true, namesake := false } rfl rfl
   simp [mutateOld, createBatchUpdateOld] at this
 
-/-- what did hold before the fix: with a token the non-owner did not know, refusal without change -/
-theorem owner_only_old_partial (m : Mutator) (q : MutReq) (hno : q.isOwner = false) (htok : q.tokenKnown = false) :
-    mutateOld m q = { ok := false, changed := false } := by
-  cases m <;> simp [mutateOld, createBatchUpdateOld, hno, htok]
-
 -- the two repaired behaviours, old vs. current
-example : mutateOld .updateFast { isOwner := false, tokenKnown := true, emptyPayload := true } = { ok := true, changed := true } := by decide
-example : mutate .updateFast { isOwner := false, tokenKnown := true, emptyPayload := true } = { ok := false, changed := false } := by decide
-example : mutateOld .createUpdate { isOwner := false, tokenKnown := true, emptyPayload := false } = { ok := true, changed := false } := by decide
-example : mutate .createUpdate { isOwner := false, tokenKnown := true, emptyPayload := false } = { ok := false, changed := false } := by decide
+example : mutateOld .updateFast ⟨false, true, true, false⟩ = { ok := true, changed := true } := by decide
+example : mutate .updateFast ⟨false, true, true, false⟩ = { ok := false, changed := false } := by decide
+example : mutateOld .createUpdate ⟨false, true, false, false⟩ = { ok := true, changed := false } := by decide
+example : mutate .createUpdate ⟨false, true, false, false⟩ = { ok := false, changed := false } := by decide
 -- idempotent retry by the owner still works
-example : mutate .createUpdate { isOwner := true, tokenKnown := true, emptyPayload := false } = { ok := true, changed := false } := by decide
+example : mutate .createUpdate ⟨true, true, false, false⟩ = { ok := true, changed := false } := by decide
 
 /-! Non-vacuity: the table has routes of every class; concrete decisions at the boundaries. -/
 
@@ -183,6 +206,6 @@ def weakenedRoute : Route :=
     handler := "get_batch", isApi := true, decorators := [.usersOnly none], ownerFilter := false }
 example : routeOK weakenedRoute = false := by decide
 -- the owner succeeds
-example : mutate .commitUpdate { isOwner := true, tokenKnown := false, emptyPayload := false } = { ok := true, changed := true } := by decide
+example : mutate .commitUpdate ⟨true, false, false, false⟩ = { ok := true, changed := true } := by decide
 
 end HailVerif.C14
